@@ -77,11 +77,17 @@ def programs(tier: str) -> tuple[list[dict], dict]:
                              Variants=True, MinOps=2, Exhaustive=False)
     stats["distcomm"] = st
     seen = set()
-    for p in lib + dp.progs_from(bs):
+    ncode = 0
+    for k, p in enumerate(proclib.dist_hand() + lib + dp.progs_from(bs)):
         if p["id"] in seen:
             continue
         seen.add(p["id"])
-        progs.append({"id": f"dist/{p['id']}", "kind": "dist", "prog": p})
+        # code for the parts (generate_code_for_partition) is generated for the
+        # hand-written multi-rank programs and for a slice of the others
+        code = p["id"].startswith("hand/") or k % (3 if tier == "thorough" else 9) == 0
+        ncode += code
+        progs.append({"id": f"dist/{p['id']}", "kind": "dist", "prog": p, "partcode": code})
+    stats["dist_programs_with_part_code"] = ncode
     stats["programs"] = len(progs)
     stats["dist_programs"] = len(seen)
     return progs, stats
@@ -182,10 +188,20 @@ def judge(run: Run, events: list[dict], stats: dict) -> None:
         same_proc = a["proc"] == b["proc"]
         same_seed = a["seed"] == b["seed"]
         key = f"{kind0}/{cls}/{where}" if cls != "content" else f"{rec['kind']}|{rec['prog']}"
+        extra_sig: dict[str, Any] = {}
+        if kind0 == "partcode":
+            # does one array of this rank's partition carry several names?  (then
+            # which name is computed and which is copied is a known order dependence)
+            pt_ = by_key.get((rec["kind"].replace("partcode", "part"), rec["prog"]), [{}])[0]
+            digs = re.findall(r"^denotes \S+ = (\w+)", pt_.get("text", ""), flags=re.M)
+            if len(digs) != len(set(digs)):
+                extra_sig["one_array_several_names"] = True
+                key = f"partcode/one_array_several_names/{where}"
         f = found.setdefault(key, {
             "progs": [], "first": (rec, a, b, cls, where, ud, ndig, len(evs)),
             "sig": {"kind": kind0, "clause": "SingleValued", "diff": cls, "where": where,
-                    **({"prog": rec["prog"]} if cls == "content" else {}),
+                    **({"prog": rec["prog"]} if cls == "content" and not extra_sig else {}),
+                    **extra_sig,
                     "varies_with": "repetition" if same_proc else
                                    ("history" if same_seed else "seed")}})
         f["progs"].append(f"{rec['kind']}|{rec['prog']}")
